@@ -156,6 +156,8 @@ def hash_ordered_constants(ctx) -> dict:
         syn = isinstance(e, (ast.Set, ast.SetComp)) or (isinstance(e, ast.Call) and isinstance(e.func, ast.Name) and e.func.id in ("set", "frozenset"))
         try:
             v = ConstEval(repo, m).eval(e, {})
+        except (NameError, UnboundLocalError):
+            raise
         except Exception:
             v = None
         if isinstance(v, (set, frozenset)):
